@@ -358,6 +358,23 @@ class ProgGen:
                     self.recipes.append({"slot": s, "k": "conic", "a": [m], "kw": {"dual": dual, "dt": "i"}})
                     self.tensors[s] = MTensor(np.array(m, dtype=np.int64), [0, 1] if dual else [], [] if dual else [0, 1])
                 self.subclass.add(s)
+        # two high-rank tensors with axes of length 2 (their tensor product has 17-18 indices but only 2^17-2^18 entries)
+        self.highrank = []
+        if rng.random() < 0.12:
+            for r_ in (9, rng.choice([8, 9])):
+                s = self.new_t()
+                cov = sorted(rng.sample(range(r_), rng.randint(2, r_ - 2)))
+                con = [i for i in range(r_) if i not in cov]
+                arr = np.array(_nested(rng, [2] * r_), dtype=np.int64)
+                self.recipes.append({"slot": s, "k": "tensor", "a": [arr.tolist()], "kw": {"cov": cov, "dt": "i"}})
+                self.tensors[s] = MTensor(arr, cov, con)
+                self.highrank.append(s)
+            for cov_ in ([], [0]):   # a contravariant and a covariant vector of length 2 to contract them with
+                s = self.new_t()
+                v = [rng.randint(-3, 3) or 1, rng.randint(-3, 3)]
+                self.recipes.append({"slot": s, "k": "tensor", "a": [v], "kw": {"cov": cov_ if cov_ else False, "dt": "i"}})
+                self.tensors[s] = MTensor(np.array(v, dtype=np.int64), cov_, [0] if not cov_ else [])
+                self.highrank.append(s)
         # second node objects of the same tensor (identity matters)
         for _ in range(rng.randint(1, 3)):
             of = rng.randrange(self.next_t)
@@ -420,6 +437,27 @@ class ProgGen:
     def step(self, i: int) -> dict:
         rng, cfg = self.rng, self.cfg
         client = rng.randrange(cfg["n_clients"])
+        if getattr(self, "highrank", None) and len(self.highrank) == 4 and i in (1, 2, 3, 5):
+            a, b, vcon, vcov = self.highrank
+            if i in (1, 5):
+                a, b = (a, b) if i == 1 else (b, a)
+                return {"i": i, "c": client, "op": "tprod", "a": a, "b": b}
+            # a diagram on a node with nine axes: which axis is its FIRST unused covariant / contravariant one?
+            d = MDiagram()
+            edges = [[a, vcon], [a, vcon]] if i == 2 else [[vcov, b], [vcov, a]]
+            try:
+                for s_, t_ in edges:
+                    d.add_edge(s_, t_, self.tensors)
+            except ModelError:
+                edges = edges[:1]
+                d = MDiagram()
+                d.add_edge(edges[0][0], edges[0][1], self.tensors)
+            new = self.next_d
+            self.next_d += 1
+            self.diagrams[new] = d
+            self.owner[new] = client
+            self.hist[new] = [["e", x, y] for x, y in edges]
+            return {"i": i, "c": client, "op": "new", "d": new, "edges": edges}
         r = rng.random()
         if r < cfg["p_cache_ops"]:
             c = rng.random()
